@@ -55,6 +55,48 @@ CLAIMS["C27"] = {
             "error. Counterexamples are replayed on the real VM against a Python dict.",
     "note": S_NOTE + " Sequences are enumerated (stated in the evidence); keys are ints only.",
 }
+MATCH_NOTE = S_NOTE + " The program dimension (types, patterns, arm lists) is a generated finite family stated in the evidence; the value dimension is the solver's. The pattern semantics in checks/matchlib.py is the reference."
+CLAIMS["C12"] = {
+    "engine": "S", "level": "model_checking",
+    "technique": "z3 decides exhaustiveness over all values of each template's type; compared with the real checker's verdict and its listed missing cases",
+    "text": "For every match template of a bounded family the real checker is run; its verdict is compared with z3's over the whole value "
+            "space of the scrutinee type (all 64-bit ints, all float bit patterns, strings, every variant/shape): accepted => no value escapes "
+            "every arm; reported gap => some value does, and each printed missing case is parsed and must cover such a value.",
+    "note": MATCH_NOTE,
+}
+CLAIMS["C13"] = {
+    "engine": "S", "level": "model_checking",
+    "technique": "z3 decides reachability of each arm (matches it and no earlier arm) over all values; compared with the redundant arms the real checker reports",
+    "text": "For every arm of every template z3 decides whether some value reaches it; the checker must report exactly the unreachable arms "
+            "as redundant. Literal patterns are compared by value, so alternative spellings (1.0 / 1.00) coincide.",
+    "note": MATCH_NOTE,
+}
+CLAIMS["C14"] = {
+    "engine": "S", "level": "translation_validation",
+    "technique": "symbolic execution of the compiled match (real compiler output) vs the first-matching-arm reference, z3 per path",
+    "text": "Every accepted template is compiled by the real compiler and executed symbolically over a symbolic scrutinee of every shape; per "
+            "bytecode path and arm, z3 refutes that the reference selects that arm while the compiled code returns another arm index or "
+            "different bindings (or-patterns, struct and variant fields, void components included).",
+    "note": MATCH_NOTE + " let/for destructuring is exercised only through the prelude code paths of other checks.",
+}
+CLAIMS["C26"] = {
+    "engine": "K+S", "level": "model_checking",
+    "technique": "Kani/CBMC on the array arms of the real step(); symbolic execution of compiled array operation sequences vs a list model with z3",
+    "text": "K: GetIndex/SetIndex with symbolic index and length 0..3 (error iff out of range, exact element/update), ArrayPush (growth and "
+            "accounting), ArrayPop (empty included), ArrayLength, Construct/DeconstructArray on the real step(). S: operation sequences over "
+            "{push, pop, len, is_empty, get, set, swap, remove, clear, find, contains, clone, filled} compiled by the real compiler and executed "
+            "symbolically with symbolic values and indices; a list model is replayed under each path condition and z3 proves observations and "
+            "termination status equal.",
+    "note": K_NOTE + " " + S_NOTE,
+}
+CLAIMS["C28"] = {
+    "engine": "S", "level": "model_checking",
+    "technique": "symbolic execution of the compiled ToString code; rendered token stream matched against the documented format, leaf agreement by z3",
+    "text": "str/`..` rendering of every value shape of nested built-in types (arrays 0..2, both variants of options/results, tuples, strings, "
+            "nil) is executed symbolically on the compiled prelude; the rendered token stream must equal the documented format token by token "
+            "and z3 refutes that a rendered true/false or integer token disagrees with the symbolic leaf.",
+    "note": S_NOTE + " i64::to_string behind StringFromInt is trusted (opaque decimal-of token).",
+}
 NOT_APPLICABLE = {
     "C03": "quantifies over programs only; the failing behaviour is a panic inside the translator for a program shape. The program cannot be made symbolic through the parser/resolver/type checker (one hash-map insert = 1.7 M SAT variables, measured).",
     "C20": "decided entirely inside the resolver/type checker for a given program; no value-level quantifier for a solver to discharge.",
